@@ -261,8 +261,24 @@ def probeOf : Sec → Entry → HKey
   | .units => fun e => mkKey (unitKey e)
   | _ => fun e => mkKey e.name
 
+def isPlaceholder (name : Str) : Bool := endsWith name ['/', '#']
+
+/-- `HedSchemaTagSection._check_if_duplicate` stores a non-duplicate under its folded long name
+(`self.all_names[name] = new_entry`): a `#` child is never a duplicate (its name key `#` is never registered),
+so a later `#` entry with the same long name *replaces* the earlier one in `all_names`.
+`keys` = folded long names of all tag entries. -/
+def shadowed (keys : List HKey) (i : Nat) (e : Entry) : Bool :=
+  isPlaceholder e.name && (keys.drop (i + 1)).contains (mkKey (fold e.name))
+
+def longKeys (l : List Entry) : List HKey := (l.map (·.name)).map fun n => mkKey (fold n)
+
 /-- `section.values()` = `all_names.values()` (with positions) -/
-def visible (s : Schema) (t : Sec) : List IE := visG (regOf t) (probeOf t) ∅ 0 (s.sec t)
+def visible (s : Schema) (t : Sec) : List IE :=
+  let v := visG (regOf t) (probeOf t) ∅ 0 (s.sec t)
+  if t = .tags then
+    let keys := longKeys (s.sec .tags)
+    v.filter fun ie => !shadowed keys ie.1 ie.2
+  else v
 
 /-- `section.get(name)` for the sections looked up by exact name -/
 def findByName (s : Schema) (t : Sec) (name : Str) : Option Entry := (s.sec t).find? (·.name = name)
@@ -287,8 +303,6 @@ def shortTagName (name : Str) : Str :=
   let cs := splitOn '/' name
   let cs' := if cs.getLast? = some hash then cs.dropLast else cs
   cs'.getLast?.getD []
-
-def isPlaceholder (name : Str) : Bool := endsWith name ['/', '#']
 
 /-- what `finalize_entry` of the tag entries sets up.  `tbl`, `parent`, `hashChild` depend on the names only. -/
 structure TagCtx where
@@ -916,6 +930,7 @@ def seed (f : Fault) (s : Schema) : Schema :=
 def visibleAt (s : Schema) (t : Sec) (i : Nat) : Bool :=
   match (s.sec t)[i]? with
   | some e => !(keysG (regOf t) (probeOf t) ∅ ((s.sec t).take i)).contains (probeOf t e)
+              && !(t = .tags && shadowed (longKeys (s.sec .tags)) i e)
   | none => false
 
 /-- the range properties `_get_range_validators` must find in a ≥ 8.3 schema -/
